@@ -2,7 +2,7 @@
 """dev-time helper: confirm a seeded change produced by a sub-agent and run checks against it.
 usage: seedeval.py <seed-id> <property> <check> [<check> ...]
  - confirms in the scratch worktree /tmp/seed/<seed-id>: suite passes with the change, demo fails with / passes without
- - applies the patch to /repo, runs the listed checks (quick), reverts /repo
+ - runs the listed checks (quick) against the scratch worktree (VERIF_REPO_ROOT), /repo is not touched
  - stores patch.diff, demo, meta.json under /verif/seeded/<seed-id>/"""
 import json, os, re, shutil, subprocess, sys, time
 ROOT = os.path.dirname(os.path.dirname(os.path.abspath(__file__)))
@@ -27,28 +27,23 @@ sh("git -C %s apply patch.diff" % wt)
 meta['ran'].append("demo with change: exit %d; without: exit %d" % (rc1, rc0))
 meta['confirmed'] = ("165 passed" in meta['tests_with_change']) and rc1 != 0 and rc0 == 0
 print(json.dumps({k: meta[k] for k in ('tests_with_change', 'demo_exit_with_change', 'demo_exit_without_change', 'confirmed')}))
-# run checks against it
-rc, out = sh("git -C /repo status --short -- src | head -3")
-assert not out.strip(), "/repo not clean: " + out
-rc, out = sh("git -C /repo apply %s/patch.diff" % wt)
-assert rc == 0, out
+# run checks against it: the same machinery pointed at the scratch worktree (which has the change applied);
+# /repo itself is not touched, and evidence of these runs goes to a scratch directory
 meta['checks'] = {}
-try:
-    for c in checks:
-        t = time.time()
-        rc, out = sh("./run.sh %s quick" % c, cwd=ROOT, timeout=3000)
-        viol = [l for l in out.splitlines() if l.startswith("VIOLATION")]
-        summ = [l for l in out.splitlines() if l.startswith("SUMMARY")]
-        meta['checks'][c] = dict(exit=rc, violations=len(viol), first=(viol[0][:300] if viol else None), summary=(summ[0] if summ else out[-300:]),
-                                 wall=round(time.time() - t, 1))
-        print(c, "exit", rc, "violations", len(viol), (viol[0][:200] if viol else ""), summ[0][-120:] if summ else "")
-finally:
-    sh("git -C /repo checkout -- .")
+cenv = dict(os.environ, VERIF_REPO_ROOT=wt, VERIF_EVIDENCE_DIR="/tmp/seed/_evidence")
+for c in checks:
+    t = time.time()
+    rc, out = sh("./run.sh %s quick" % c, cwd=ROOT, env_=cenv, timeout=3000)
+    viol = [l for l in out.splitlines() if l.startswith("VIOLATION")]
+    summ = [l for l in out.splitlines() if l.startswith("SUMMARY")]
+    meta['checks'][c] = dict(exit=rc, violations=len(viol), first=(viol[0][:300] if viol else None), summary=(summ[0] if summ else out[-300:]),
+                             wall=round(time.time() - t, 1))
+    print(c, "exit", rc, "violations", len(viol), (viol[0][:200] if viol else ""), summ[0][-120:] if summ else "")
 meta['detected_by'] = [c for c, r in meta['checks'].items() if r['exit'] == 1]
 d = os.path.join(ROOT, "seeded", sid)
 os.makedirs(d, exist_ok=True)
 shutil.copy(wt + "/patch.diff", d + "/patch.diff")
 shutil.copy(os.path.join(wt, demo), os.path.join(d, demo))
-meta['ran'].append("checks run with the patch applied to /repo (then reverted): " + ", ".join(checks))
+meta['ran'].append("checks run (quick tier) against the scratch worktree with the change applied (VERIF_REPO_ROOT): " + ", ".join(checks))
 json.dump(meta, open(d + "/meta.json", "w"), indent=1)
 print("detected_by", meta['detected_by'])
